@@ -201,6 +201,16 @@ func (ev *evaluator) deref(home Layer, name string, stack []string, typed bool) 
 	return ev.resolverOr(name, Outcome{Kind: Missing, Str: name})
 }
 
+// existsAsExpr: some layer holds name as a setting that needs evaluation.
+func (ev *evaluator) existsAsExpr(home Layer, name string) bool {
+	for _, l := range append([]Layer{home}, reverse(ev.env.Envs)...) {
+		if s, ok := l[name]; ok && (s.Plain != nil || s.Expr != nil || s.Group != nil) {
+			return s.Expr != nil
+		}
+	}
+	return false
+}
+
 // resolverOr: a resolver that knows the name absorbs a missing/cyclic outcome.
 func (ev *evaluator) resolverOr(name string, o Outcome) Outcome {
 	for i := len(ev.env.Resolvers) - 1; i >= 0; i-- {
@@ -252,6 +262,10 @@ func (ev *evaluator) eval(home Layer, x Exp, stack []string) Outcome {
 			return n
 		}
 		var o Outcome
+		if t.Kind == ":+" && n.Kind == Value && n.Str != "" && inStack(stack, n.Str) {
+			// the setting asked about is being evaluated right now: it is set
+			return ev.eval(home, t.RHS, stack)
+		}
 		if n.Kind == Value && n.Str != "" {
 			o = ev.deref(home, n.Str, stack, false)
 			if o.Kind == Undefined || (o.Kind == Value && o.Group) {
@@ -275,6 +289,11 @@ func (ev *evaluator) eval(home Layer, x Exp, stack []string) Outcome {
 			return o
 		case ":+":
 			if !set {
+				if n.Kind == Value && n.Str != "" && !inStack(stack, n.Str) && ev.existsAsExpr(home, n.Str) {
+					// the setting exists but its own evaluation fails: whether that counts
+					// as "set" is not defined by the statement
+					return Outcome{Kind: Undefined}
+				}
 				return val("")
 			}
 			if o.Str == "" {
